@@ -1273,9 +1273,9 @@ theorem foldl_stepSel_eq (h : Hooks) (fl : Flavor) (m : Machine) (ev : Ev) (mult
       · simp only [List.foldl_cons, stepSel, firedOf, hs, hst, if_false, Bool.false_eq_true]
         rw [ih]; rfl
 
-theorem processEvent_ok (h : Hooks) (fl : Flavor) (m : Machine) (env : GEnv) (ev : Ev) (s : St)
-    (sel : List Cand) (hsel : selectTransitions m s.cfg env ev = .ok sel) :
-    processEvent h fl m env ev s = sel.foldl (stepSel h fl m ev (decide (sel.length > 1))) s := by
+theorem processEvent_ok (h : Hooks) (fl : Flavor) (m : Machine) (u : UEnv) (ev : Ev) (s : St)
+    (sel : List Cand) (hsel : selectTransitions m s.cfg (u.genv s.ctx ev.type) ev = .ok sel) :
+    processEvent h fl m u ev s = sel.foldl (stepSel h fl m ev (decide (sel.length > 1))) s := by
   simp only [processEvent, hsel]
   rfl
 
@@ -1431,6 +1431,9 @@ def exEnv : GEnv := fun n => if n = "g1" then .f else .missing
 /-- `g1` has no implementation -/
 def exEnvMissing : GEnv := fun _ => .missing
 def exS : St := { cfg := exCfg, status := "running" }
+/-- user code for the examples: guards by table (independent of context/event), every action a marker -/
+def exU : UEnv := { g := fun n _ _ => exEnv n, a := fun _ c _ => .ok c }
+def exUMissing : UEnv := { g := fun n _ _ => exEnvMissing n, a := fun _ c _ => .ok c }
 
 def tidsOf (r : Except GErr (List Cand)) : Option (List Nat) :=
   match r with | .ok sel => some (sel.map (·.t.tid)) | .error _ => none
